@@ -423,15 +423,47 @@ class _CountingCondition(threading.Condition):
         return r
 
 
-_BUDGET_ATTRS = ("_capacity", "_in_flight", "_oversized_active", "_condition")
+def _discover_budget_attrs(real) -> dict:
+    """The budget keeps a capacity, a count of bytes in flight, an 'oversized reservation active' flag and
+    a condition variable.  Their attribute NAMES are private and may be renamed by a refactoring, so they
+    are discovered by behaviour on a probe object instead of being hard-coded: the attribute that holds
+    the constructor argument, the Condition, the int that follows acquire/release of a fitting
+    reservation, the flag that follows an oversized one."""
+    def state(o):
+        d = dict(getattr(o, "__dict__", {}))
+        for klass in type(o).__mro__:
+            for name in getattr(klass, "__slots__", ()):
+                if hasattr(o, name):
+                    d[name] = getattr(o, name)
+        return d
+
+    probe = real(5)
+    d0 = state(probe)
+    cond = [k for k, v in d0.items() if isinstance(v, threading.Condition)]
+    cap = [k for k, v in d0.items() if type(v) is int and v == 5]
+    tok = probe.acquire(3)
+    d1 = state(probe)
+    infl = [k for k, v in d1.items() if type(v) is int and v == 3 and d0.get(k) == 0]
+    probe.release(tok)
+    tok = probe.acquire(100)
+    d2 = state(probe)
+    over = [k for k, v in d2.items() if bool(v) and not bool(d0.get(k)) and k not in infl and type(v) in (bool, int)]
+    probe.release(tok)
+    d3 = state(probe)
+    found = {"capacity": cap, "in_flight": infl, "oversized": over, "condition": cond}
+    bad = {k: v for k, v in found.items() if len(v) != 1}
+    if bad or any(d3.get(k) != d0.get(k) for k in infl + over):
+        raise RuntimeError(f"_ByteBudget state not recognisable by behaviour ({bad or 'probe did not return to its initial state'}): "
+                           "budget facet unobservable")
+    return {k: v[0] for k, v in found.items()}
 
 
 def install_budget_monitor() -> None:
     real = ed._ByteBudget
-    probe = real(5)
-    missing = [a for a in _BUDGET_ATTRS if not hasattr(probe, a)]
-    if missing or not callable(getattr(probe, "acquire", None)) or not callable(getattr(probe, "release", None)):
-        raise RuntimeError(f"_ByteBudget no longer has {missing or 'acquire/release'}: budget facet unobservable")
+    if not callable(getattr(real, "acquire", None)) or not callable(getattr(real, "release", None)):
+        raise RuntimeError("_ByteBudget no longer has acquire/release: budget facet unobservable")
+    names = _discover_budget_attrs(real)
+    a_cap, a_infl, a_over, a_cond = names["capacity"], names["in_flight"], names["oversized"], names["condition"]
 
     class MonBudget(real):  # type: ignore[misc, valid-type]
         def __init__(self, capacity):
@@ -440,11 +472,11 @@ def install_budget_monitor() -> None:
             self._vf_mon = mon
             if mon is not None:
                 self._vf_id = mon.register_budget(self)
-                self._condition = _CountingCondition(mon, self._vf_id)
+                setattr(self, a_cond, _CountingCondition(mon, self._vf_id))
 
         def _vf_snap(self):
-            with self._condition:
-                return (self._in_flight, bool(self._oversized_active), self._capacity)
+            with getattr(self, a_cond):
+                return (getattr(self, a_infl), bool(getattr(self, a_over)), getattr(self, a_cap))
 
         def acquire(self, nbytes):
             mon = self._vf_mon
@@ -559,6 +591,9 @@ def analyse(spec: dict, events: list, outcome: str, ret_clk: int):
     busy: set = set()
     evaluating = 0
     injected_raise = 0
+    file_cbs: Counter = Counter()  # observed layout: callbacks per destination file ...
+    file_threads: dict = {}  # ... the threads that made them ...
+    file_objs: dict = {}  # ... and the tensor objects they were made for
     for ev in events:
         clk, thr, kind, a, b, c = ev
         st["ev_" + kind] += 1
@@ -575,6 +610,10 @@ def analyse(spec: dict, events: list, outcome: str, ret_clk: int):
                     f"still running on T{sorted(set(cb_active.values()))}: {_window(events, clk)}")
             cb_active[a] = thr
             total = c[0] if c else None
+            if c:
+                file_cbs[c[1]] += 1
+                file_threads.setdefault(c[1], set()).add(thr)
+                file_objs.setdefault(c[1], set()).add(b)
             if total != n_uses:
                 bad(f"callback-total-wrong|{mode}", f"CallbackInfo.total={total}, {n_uses} tensors are written")
         elif kind in ("cb_exit", "cb_raise"):
@@ -590,6 +629,7 @@ def analyse(spec: dict, events: list, outcome: str, ret_clk: int):
                     f"tensor object t{a} (backs {uses.count(a)} initializers) entered {c} on T{thr} while "
                     f"another evaluation of the same object was in progress: {_window(events, clk)}")
             mat += b
+            st["zero_byte_evals"] += 1 if b == 0 else 0
             st["mat_peak"] = max(st["mat_peak"], mat)
             if mat > bound:
                 n_over = sum(1 for s in sizes if s > spec["budget"])
@@ -654,6 +694,18 @@ def analyse(spec: dict, events: list, outcome: str, ret_clk: int):
         bad(f"worker-exception-swallowed|{mode}",
             f"{injected_raise} tensor evaluation(s) raised the injected failure but the save returned normally")
     st["injected_raises"] = injected_raise
+    # measured, report-only: did writers of different kinds take part?  A file whose callbacks came
+    # from >=2 threads was written by an inner pool; a file with one tensor by its shard driver.
+    if outcome == "returned" and mode == "sharded":
+        single = {f for f, n in file_cbs.items() if n == 1}
+        pooled = {f for f in file_cbs if len(file_threads[f]) >= 2}
+        st["files"] = len(file_cbs)
+        if single and pooled:
+            st["driver_and_pool_writers"] = 1
+            in_single = set().union(*(file_objs[f] for f in single))
+            in_pooled = set().union(*(file_objs[f] for f in pooled))
+            if in_single & in_pooled:
+                st["object_shared_by_driver_and_pool"] = 1
     return list(viol.items()), st
 
 
@@ -752,8 +804,7 @@ def run_case(seed: int, case: int, rep: int, tmp_root: str, spec: dict | None = 
         alive_desc = [t.name for t in alive]
         budget_end = []
         for bud in mon.budgets:
-            with bud._condition:
-                budget_end.append((bud._in_flight, bool(bud._oversized_active), bud._capacity))
+            budget_end.append(bud._vf_snap())
         dirty = False
         for t in alive:
             t.join(2.0)
@@ -809,7 +860,8 @@ def run_case(seed: int, case: int, rep: int, tmp_root: str, spec: dict | None = 
                 "oversized": st["oversized_reservations"], "snapshots": st["budget_snapshots"],
                 "callbacks": st["ev_cb_enter"], "evals": st["ev_t_enter"], "injected_raises": st["injected_raises"],
                 "t_error": st["ev_t_error"], "lines": next(mon.lines), "yields": next(mon.yields),
-                "compared": compared,
+                "compared": compared, "zero_byte_evals": st["zero_byte_evals"],
+                "driver_and_pool": st["driver_and_pool_writers"], "obj_driver_and_pool": st["object_shared_by_driver_and_pool"],
                 "shared_evals": sum(1 for e in events if e[2] == "t_enter" and spec["uses"].count(e[3]) > 1),
                 "cap_mismatch": sum(1 for x in budget_end if x[2] != max(spec["budget"], 1)),
             },
@@ -907,9 +959,25 @@ def watchdog() -> None:
                 "stack": [f"{os.path.basename(fl)}:{ln} {fn}" for (fl, fn, ln) in stack[:14]],
             }
         tail = _window(mon.events, len(mon.events) - 1, 40) if mon.events else ""
-        failed = any(e[2] in ("t_raise", "cb_raise") for e in list(mon.events))
+        logged = list(mon.events)
+        failed = any(e[2] in ("t_raise", "cb_raise") for e in logged)
+        # threads that hold a granted reservation (b_ok without b_rel in the log) yet are parked
+        # at a lock: the budget is held across a blocking acquisition (lock-order diagnosis)
+        held: Counter = Counter()
+        for e in logged:
+            if e[2] == "b_ok":
+                held[e[1]] += 1
+            elif e[2] == "b_rel":
+                held[e[1]] -= 1
+        holder_parked = set()
+        for ident, (_code, _lasti, stack) in s2.items():
+            if held.get(mon.tlabels.get(ident, -1), 0) > 0:
+                tag = stacks.get(names.get(ident, str(ident)), {}).get("parked")
+                if tag and tag.startswith("lock-acquire@"):
+                    holder_parked.add(tag)
         detail = {"stacks": stacks, "events": n2, "silence_s": round(time.monotonic() - mon.last_t, 1),
-                  "parked_in": sorted(where), "after_failure": failed, "events_tail": tail}
+                  "parked_in": sorted(where), "after_failure": failed, "events_tail": tail,
+                  "holder_parked": sorted(holder_parked)}
         if n1 == n2 and parked_all and set(s1) == set(s2):
             # confirmation: a third sample one second later must show the very same picture
             time.sleep(CONFIRM_GAP_S)
